@@ -17,6 +17,8 @@ def build_scripts(ctx, scale):
     rs = inputs(ctx, scale); scripts = {}
     for b in ('ark', 'min'):
         lines = ['el.elligator %x' % r for r in rs]
+        for r in rs[:10]:      # coinciding summands: the one-input map is even, so (r, r) and (r, -r) add a point to itself
+            lines.append('el.hash_to_curve %x %x' % (r, r)); lines.append('el.hash_to_curve %x %x' % (r, (Q - r) % Q))
         for i in range(30 * scale):
             lines.append('el.hash_to_curve %x %x' % (ctx.rng.choice(rs), ctx.rng.choice(rs)))
         scripts[b] = lines
@@ -46,6 +48,8 @@ def search(ctx, scale, hints):
             if ',' in o2 and pyref.valid(c) and not pyref.coset_eq(pyref.aff(parseE(o2)), pyref.aff(c)):
                 fails.append(('elligator(-r0) != elligator(r0) for r0 = %x (build %s)' % (r, b), {'build': b, 'script': [lines[i], lines[n + i]], 'output': [o, o2]}, {'class': 'neg', 'build': b}))
         lines = []; meta = []
+        for r in rs[:12]:
+            for r2 in (r, (Q - r) % Q): lines.append('el.hash_to_curve %x %x' % (r, r2)); meta.append((r, r2))
         for i in range(40 * scale):
             r1, r2 = ctx.rng.choice(rs), ctx.rng.choice(rs); lines.append('el.hash_to_curve %x %x' % (r1, r2)); meta.append((r1, r2))
         out = harness.run_script(b, lines)
